@@ -184,6 +184,18 @@ def c03_positions(code, m):
         if l.get_start_pos_of_prefix() != prev_end:
             return 'C03:start-pos-of-prefix:%s' % l.type
         prev_end = l.end_pos
+    # a node's prefix is the prefix of its first leaf
+    def nodes(n):
+        if hasattr(n, 'children'):
+            yield n
+            for c in n.children:
+                yield from nodes(c)
+    for n in nodes(m):
+        fl = n.get_first_leaf()
+        if is_zw_error(fl):
+            continue
+        if n.get_start_pos_of_prefix() != fl.get_start_pos_of_prefix():
+            return 'C03:start-pos-of-prefix:node:%s' % n.type
     return None
 
 
